@@ -17,8 +17,9 @@ use std::time::{Duration, Instant};
 const BUDGET: u64 = 20_000_000;
 const STALL_WINDOW: u64 = 1_000_000;
 
-const KINDS: [&str; 13] = [
+const KINDS: [&str; 19] = [
     "blowup_y2", "blowup_1_plus_y2", "sqrt_domain_exit", "nan_after_time", "inf_in_region", "bounded_discontinuity", "stiff_decay_explicit", "zero_rhs", "nan_at_start", "blowup_exp", "blowup_pole_opposite_side", "sqrt_boundary_at_xend", "step_below_ulp_of_x0",
+    "nan_in_one_component_after_time", "sliding_mode", "huge_finite_rhs", "blowup_one_of_three", "neg_inf_after_time", "state_dependent_jump",
 ];
 
 struct Hostile {
@@ -129,15 +130,79 @@ fn gen(seed: u64, idx: usize) -> Hostile {
             xend = 2.0;
             fnp(1, "y' = -sqrt(y), boundary reached at xend", |_t, y, d| d[0] = -(y[0].sqrt()))
         }
+        13 => {
+            // only one component of three goes NaN: a norm that loses NaN (max with NaN, comparisons false) lets it through
+            let c = rng.range(0.2, 0.9);
+            let which = rng.below(3);
+            xend = rng.range(1.0, 3.0);
+            y0 = vec![1.0, 0.5, -0.3];
+            fnp(3, &format!("linear 3-d system, component {} NaN for t > {}", which, c), move |t, y, d| {
+                d[0] = -y[0] + 0.2 * y[2];
+                d[1] = y[0] - y[1];
+                d[2] = -0.5 * y[2] + 0.1 * y[1];
+                if t > c {
+                    d[which] = f64::NAN;
+                }
+            })
+        }
+        14 => {
+            // sliding mode: the solution reaches y = 0 and the right-hand side chatters between -k and +k
+            let k = rng.range(0.5, 3.0);
+            xend = rng.range(1.5, 4.0);
+            y0 = vec![rng.range(0.2, 1.0)];
+            fnp(1, &format!("y' = -{} sign(y) + 0.3 sin t", k), move |t, y, d| d[0] = -k * if y[0] > 0.0 { 1.0 } else if y[0] < 0.0 { -1.0 } else { 0.0 } + 0.3 * t.sin())
+        }
+        15 => {
+            // finite but close to overflow: stage combinations and error norms overflow to inf / NaN internally
+            let a = *rng.pick(&[1e300, 1e305, 1.0e307]);
+            xend = rng.range(1.0, 6.0);
+            y0 = vec![0.0];
+            fnp(1, &format!("y' = {:e} cos t", a), move |t, _y, d| d[0] = a * t.cos())
+        }
+        16 => {
+            // one of three coupled components blows up
+            let s = rng.range(0.5, 2.0);
+            y0 = vec![1.0 / s, 1.0, 0.0];
+            xend = s * rng.range(1.2, 4.0);
+            singular_at = Some(s);
+            fnp(3, "y1' = y1^2, y2' = -y2, y3' = y1 - y3", |_t, y, d| {
+                d[0] = y[0] * y[0];
+                d[1] = -y[1];
+                d[2] = y[0] - y[2];
+            })
+        }
+        17 => {
+            let c = rng.range(0.2, 0.9);
+            xend = rng.range(1.0, 3.0);
+            y0 = vec![1.0, 0.5];
+            fnp(2, &format!("y' = -y, -inf for t > {}", c), move |t, y, d| {
+                if t > c {
+                    d[0] = f64::NEG_INFINITY;
+                    d[1] = -y[1];
+                } else {
+                    d[0] = -y[0];
+                    d[1] = y[0] - y[1];
+                }
+            })
+        }
+        18 => {
+            // the right-hand side jumps by a large amount when the state crosses a threshold
+            let thr = rng.range(0.3, 0.8);
+            let jump = *rng.pick(&[10.0, 1e3, 1e6]);
+            xend = rng.range(2.0, 6.0);
+            y0 = vec![1.0];
+            fnp(1, &format!("y' = -y + {} [y < {}]", jump, thr), move |_t, y, d| d[0] = -y[0] + if y[0] < thr { jump } else { 0.0 })
+        }
         _ => {
             // interval of a few ulps of x0: steps cannot be resolved
             x0 = rng.sign() * *rng.pick(&[1e6, 1e9, 1e12]);
-            xend = x0 + rng.sign() * x0.abs() * f64::EPSILON * rng.range(3.0, 400.0);
+            // half of the intervals are so short that a hundredth of them (RK4's default step) is below half an ulp of x0
+            xend = x0 + rng.sign() * x0.abs() * f64::EPSILON * if rng.bool() { rng.range(3.0, 40.0) } else { rng.range(40.0, 400.0) };
             fnp(1, "y' = -y on an interval of a few ulps", |_t, y, d| d[0] = -y[0])
         }
     };
     // direction: one case in three integrates the time-reflected problem backward
-    let backward = (idx / 78) % 3 == 2 && kind != 10 && kind != 12;
+    let backward = (idx / (6 * KINDS.len())) % 3 == 2 && kind != 10 && kind != 12;
     let prob: Box<dyn Problem> = if backward {
         x0 = -x0;
         xend = -xend;
@@ -214,8 +279,11 @@ pub fn child_main(args: &[String]) {
             let l = self.p.log.borrow();
             let total = l.n_ode + l.n_ode_jac;
             if total > BUDGET {
-                let stalled = total - l.far_at >= STALL_WINDOW;
-                println!("{}", json!({"outcome": "budget", "calls": total, "far": l.far, "far_at": l.far_at, "stalled": stalled}));
+                // no progress: the smallest |t - x0| evaluated in the last complete window of 1e6 calls is not beyond that
+                // of the window before (a crawl, however slow, raises it; the furthest point ever evaluated does not tell,
+                // an early rejected trial step may lie far ahead of where a sliding-mode solution creeps)
+                let stalled = !(l.win_min_last > l.win_min_prev); // NaN evaluation times are no progress either
+                println!("{}", json!({"outcome": "budget", "calls": total, "far": l.far, "far_at": l.far_at, "window_min_previous": l.win_min_prev, "window_min_last": l.win_min_last, "stalled": stalled}));
                 std::process::exit(if stalled { 77 } else { 79 });
             }
         }
@@ -310,7 +378,7 @@ fn run_child(seed: u64, idx: usize) -> ChildResult {
 
 pub fn run(ctx: &Ctx) -> (Report, Meta) {
     let meta = Meta::new(
-        "hostile right-hand sides, one solve_ivp call per child process: finite-time blow-up (y^2, 1+y^2, exp(y), singularity at several distances and on either side of the origin), sqrt leaving its domain (also with the boundary reached exactly at xend), NaN / +inf returned after a time or in a region of state space or at the initial point, bounded discontinuous forcing, stiff decay (rates 1e4..1e6) with explicit methods, zero right-hand side over spans up to 1e6; x 6 methods x {unlimited step budget, max_steps 10..1e4} x {plain, t_eval, dense_output, events} x {forward, time-reflected backward}; a child that exhausts 2e7 right-hand-side evaluations without progress in max|t - x0| over the last 1e6 of them (or 60 s of CPU time) is a bounded-work violation; non-trivial = child whose right-hand side actually returned a non-finite value or whose run ended with a non-success status (distinct by case index)",
+        "hostile right-hand sides, one solve_ivp call per child process: finite-time blow-up (y^2, 1+y^2, exp(y), singularity at several distances and on either side of the origin), sqrt leaving its domain (also with the boundary reached exactly at xend), NaN / +inf returned after a time or in a region of state space or at the initial point, bounded discontinuous forcing, stiff decay (rates 1e4..1e6) with explicit methods, zero right-hand side over spans up to 1e6, NaN in a single component of three, -inf after a time, a sliding mode (y' = -k sign y), right-hand sides of size 1e300..1e307 (internal overflow), one blowing-up component among three, a state-dependent jump of size 10..1e6; x 6 methods x {unlimited step budget, max_steps 10..1e4} x {plain, t_eval, dense_output, events} x {forward, time-reflected backward}; a child that exhausts 2e7 right-hand-side evaluations without progress (the smallest |t - x0| evaluated in a window of 1e6 calls does not grow between the last two windows) (or 60 s of CPU time) is a bounded-work violation; non-trivial = child whose right-hand side actually returned a non-finite value or whose run ended with a non-success status (distinct by case index)",
     )
     .assume("termination is decided as bounded work: logical budget of 2e7 evaluations (>= 1000 x what a terminating solver needs on these problems) plus stall detection; budget exhaustion with continuing progress and the 180 s wall-clock watchdog are inconclusive, never violations")
     .assume("fixed-step RK4 is not error controlled: non-finite values and integration past a singularity are not violations for it")
@@ -318,7 +386,7 @@ pub fn run(ctx: &Ctx) -> (Report, Meta) {
     .floor("children_run", 300)
     .floor("children_with_nonsuccess_status", 100)
     .floor("children_rhs_went_nonfinite", 60);
-    let n = ctx.size(1_872, 187_200);
+    let n = ctx.size(16 * 6 * KINDS.len(), 1_600 * 6 * KINDS.len());
     let rep = par_for(n, "C04", |i, rep| {
         let case_id = format!("child/{}", i);
         if !ctx.want(&case_id) {
